@@ -99,7 +99,8 @@ class SimFS:
     """In-memory file system with a write-fault plan.
 
     plan[path] in {None, ("torn", n), ("short", n), ("enospc",), ("lost",)}:
-      torn   - the write is cut after n bytes and the writer gets an OSError
+      torn   - the write is cut after n bytes and the writer gets an OSError (a file opened unbuffered first gets a short
+               count back from write(), as a raw file does, and the OSError only at its next write)
       short  - the write reports success but only a prefix of n bytes is kept
       enospc - OSError at the first write, an empty file is left behind
       lost   - the write reports success, no file exists afterwards
@@ -115,6 +116,9 @@ class SimFS:
         name = str(name)
         if "w" in mode:
             fault = self.plan.pop(name, None)
+            # a raw file object (buffering=0) may accept fewer bytes than it was given and says so through write()'s return
+            # value; a buffered one (the default) retries and raises. The same device fault shows differently to the two.
+            raw = (a[0] if a else k.get("buffering", -1)) == 0
 
             class W(io.BytesIO):
                 def __init__(s):
@@ -127,6 +131,13 @@ class SimFS:
                         fs.files[name] = b""
                         fs.fired.append(("enospc", name))
                         raise SimFSFault(28, "No space left on device (simulated)")
+                    if fault and fault[0] == "torn" and raw and s._n + len(data) > fault[1] and s._n < fault[1]:
+                        keep = fault[1] - s._n
+                        super().write(bytes(data)[:keep])
+                        s._n += keep
+                        fs.files[name] = s.getvalue()
+                        fs.fired.append(("torn", name, fault[1]))
+                        return keep          # short count: the caller has to notice
                     if fault and fault[0] == "torn" and s._n + len(data) > fault[1]:
                         keep = max(0, fault[1] - s._n)
                         super().write(bytes(data)[:keep])
